@@ -30,6 +30,7 @@ pub fn plan() -> Plan {
         soft_s: (28, 420),
         exhaustive: None,
         min_evaluations: 100,
+        extra: None,
     }
 }
 
